@@ -214,3 +214,50 @@ def eq_atom(a: str, b: str) -> str:
     """Canonical text of the fact atom for `a == b` (operands sorted, as sa.facts.cmp_atom does)."""
     l, r = sorted([a, b])
     return f'{l} == {r}'
+
+
+def _history_quantifier(e: ast.AST) -> ast.AST:
+    """`any(<status test on e> for e in X.event_history.values())` says which kinds of events the history holds: with the status test evaluated over the three states an event
+    can be in (rules/tiers.py) it is `X.events_pending or X.events_started` (or one of them) — the two properties are exactly the history events in those states (C13.6 / C15.x
+    check the properties themselves).  `all(P ...)` is `not any(not P ...)`."""
+    neg = False
+    call = e
+    if not (isinstance(call, ast.Call) and isinstance(call.func, ast.Name) and call.func.id in ('any', 'all') and len(call.args) == 1 and not call.keywords
+            and isinstance(call.args[0], (ast.GeneratorExp, ast.ListComp)) and len(call.args[0].generators) == 1):
+        return e
+    gen = call.args[0].generators[0]
+    it = gen.iter
+    if isinstance(it, ast.Call) and isinstance(it.func, ast.Name) and it.func.id in ('list', 'tuple') and len(it.args) == 1:
+        it = it.args[0]
+    if not (isinstance(it, ast.Call) and isinstance(it.func, ast.Attribute) and it.func.attr == 'values' and isinstance(it.func.value, ast.Attribute) and it.func.value.attr == 'event_history'
+            and isinstance(gen.target, ast.Name) and not gen.is_async):
+        return e
+    from .tiers import ALL, TierEval, _UNK
+
+    te = TierEval(None, 'self')
+    tests = list(gen.ifs) + [call.args[0].elt]
+    sel = set()
+    for s_ in ALL:
+        vs = [te.admits(t, gen.target.id, s_) for t in tests]
+        if any(v is None or v is _UNK for v in vs):
+            return e
+        holds = all(vs[:-1]) and (vs[-1] if call.func.id == 'any' else True)
+        if call.func.id == 'all':
+            # all(P for e if C): false iff some e with C and not P
+            holds = all(vs[:-1]) and not vs[-1]
+        if holds:
+            sel.add(s_)
+    owner = U(it.func.value.value)
+    parts = [f'{owner}.events_{s_}' for s_ in ('pending', 'started') if s_ in sel]
+    if 'completed' in sel or not parts:
+        return e
+    new = ast.parse(' or '.join(parts), mode='eval').body
+    if call.func.id == 'all':
+        new = ast.UnaryOp(op=ast.Not(), operand=new)
+    return ast.copy_location(ast.fix_missing_locations(new), e)
+
+
+from sa import facts as _facts_mod  # noqa: E402
+
+if _history_quantifier not in _facts_mod.TEST_REWRITERS:
+    _facts_mod.TEST_REWRITERS.append(_history_quantifier)
